@@ -364,14 +364,15 @@ def run_enum(task):
     base_case = {"kind": "sched", "sc": sc, "schedule": {"order": [0, 1]}, "seed": 1}
     o = run_case(base_case)
     D = o.get("decisions", 0)
-    scheds = [{"order": order, "preempt": [[i, j]]} for order in ([0, 1], [1, 0]) for i in range(1, int(D * 1.15) + 2) for j in (0, 1)]
-    scheds = [{"order": [0, 1]}, {"order": [1, 0]}] + scheds
+    orders = task.get("orders") or ([0, 1], [1, 0])
+    scheds = [{"order": order, "preempt": [[i, j]]} for order in orders for i in range(1, int(D * 1.15) + 2) for j in (0, 1)]
+    scheds = [{"order": o} for o in orders] + scheds
     for idx, schd in enumerate(scheds):
         if idx % task["nshard"] != task["shard"]:
             continue
         case = {"kind": "sched", "sc": sc, "schedule": schd, "seed": 1}
         o = run_case(case)
-        res.case(key=chash(case), nontrivial=o["nontrivial"], labels=o["labels"] + ["enum-depth1"], sample=case if o["nontrivial"] and idx % 61 == 0 else None)
+        res.case(key=chash(case), nontrivial=o["nontrivial"], labels=o["labels"] + ["enum-depth1"] + ([task["label"]] if task.get("label") else []), sample=case if o["nontrivial"] and idx % 61 == 0 else None)
         for b, w in o["violations"]:
             res.violation(b, w + f" [scenario {sc}, schedule {schd}]", case)
     res.extra["depth1_enumeration_complete_for_fixed_scenarios"] = True
@@ -488,6 +489,13 @@ def plan(tier, seed):
     for sc in fixed:
         for s in range(ns):
             tasks.append({"kind": "enum", "sc": sc, "shard": s, "nshard": ns})
+    # every ORDERED pair of operation kinds (the first aiming at the later prior snapshot/file, the second at the earlier one),
+    # all single-preemption schedules: the window between any two storage steps of one committer holds the whole other commit
+    for k1 in OPKINDS:
+        for k2 in OPKINDS:
+            for world, topo in ([("local", "separate")] if tier == "quick" else [("local", "separate"), ("s3cas", "separate"), ("local", "shared")]):
+                sc = {"world": world, "topology": topo, "clock": "coarse", "nprior": 3, "ops": [{"op": k1, "which": 1}, {"op": k2, "which": 0}]}
+                tasks.append({"kind": "enum", "sc": sc, "shard": 0, "nshard": 1, "orders": [[0, 1]] if tier == "quick" else None, "label": "enum-pairs"})
     n = 45 if tier == "quick" else 2500
     for s in range(4 if tier == "quick" else 16):
         tasks.append({"kind": "pct", "n": n, "seed": seed * 1000 + s, "tier": tier})
